@@ -154,6 +154,48 @@ fn c11_run(spec: &OtSpec) -> (Vec<Violation>, u64) {
     (v, res.steps)
 }
 
+/// One KOS session, honest sender (node 0) against a receiver (node 1, scripted) that sends an
+/// empty - or one-row-short - OT-extension matrix and answers the consistency check with zeros.
+/// With Q = 0 the check equation holds for any coefficients; the sender must refuse the matrix.
+pub fn kos_short_matrix_attack(spec: &OtSpec, one_short: bool) -> (Vec<Violation>, u64) {
+    let sv = json!({"kos_matrix": spec, "one_short": one_short});
+    let mut v = vec![];
+    let mut cfg = RunCfg::honest(2, spec.cap, spec.seed, spec.sched.clone());
+    cfg.max_steps = 1_000_000;
+    cfg.record_events = true;
+    let reference = sim::run(&cfg, Arc::new(OtTask { spec: spec.clone() }));
+    cfg.record_events = false;
+    let mut steps = reference.steps;
+    if !reference.ends.iter().all(|e| matches!(e, End::Ok(_))) {
+        v.push(viol("harness-error", "kos-matrix-reference", "honest OT session failed".into(), &sv));
+        return (v, steps);
+    }
+    let zero_answer = schema::encode_msg(&V::Vec(vec![V::Tup(vec![V::Arr(vec![V::U8(0); 16]), V::Arr(vec![V::U8(0); 16]), V::Arr(vec![V::U8(0); 16])])], 1));
+    let sel = |phase: &str| Sel { from: 1, to: 0, idx: None, phase: Some(phase.into()), occ: Some(0) };
+    cfg.faults = vec![
+        Fault { sel: sel("ALSZ_OT_setup"), kind: FaultKind::Mutate(MutSpec::At { path: vec![], op: if one_short { crate::mutate::LeafOp::VecResize(-1) } else { crate::mutate::LeafOp::VecClear } }) },
+        Fault { sel: sel("KOS_OT_x_t0_t1"), kind: FaultKind::Mutate(MutSpec::Bytes(zero_answer)) },
+    ];
+    cfg.scripted = Some((1, reference.reference()));
+    let res = sim::run(&cfg, Arc::new(OtTask { spec: spec.clone() }));
+    steps += res.steps;
+    if res.fired.values().sum::<u64>() == 0 {
+        v.push(viol("harness-error", "kos-matrix-not-fired", "the altered messages were never sent".into(), &sv));
+        return (v, steps);
+    }
+    match &res.ends[0] {
+        End::Ok(_) => v.push(viol(
+            "cheating-not-detected",
+            &format!("cheating-not-detected:kos-session:{}-matrix+zero-check-answer", if one_short { "one-row-short" } else { "empty" }),
+            format!("the honest KOS sender accepted an OT-extension matrix with {} rows together with an all-zero check answer and returned keys (len={})", if one_short { "127" } else { "no" }, spec.len),
+            &sv,
+        )),
+        End::Panic(m) => v.push(viol("panic", "panic:kos-session", format!("the honest KOS sender panicked: {m}"), &sv)),
+        _ => {}
+    }
+    (v, steps)
+}
+
 pub struct C11;
 
 fn c11_lengths(tier: Tier) -> Vec<usize> {
